@@ -14,6 +14,7 @@ import (
 	"strconv"
 	"strings"
 	"syscall"
+	"time"
 )
 
 // Build is one instrumented build of /repo's current working tree.
@@ -102,7 +103,7 @@ func buildKey() (string, error) {
 }
 
 // ensureBuild builds (or reuses) the workers for the current /repo working tree.
-// Builds are cached under <verif>/.build/<key>; only the newest key is kept.
+// Builds are cached under <verif>/.build/<key>; old builds are pruned (see below).
 func ensureBuild(needRace bool, c *Ctx) (*Build, error) {
 	key, err := buildKey()
 	if err != nil {
@@ -135,11 +136,25 @@ func ensureBuild(needRace bool, c *Ctx) (*Build, error) {
 		}
 	}
 	if len(targets) > 0 {
-		// drop older builds
+		// drop old builds: keep the 6 most recent and anything younger than 3 hours
+		// (several checks, possibly of different trees, may run concurrently)
+		type old struct {
+			name string
+			mod  time.Time
+		}
+		var olds []old
 		ents, _ := os.ReadDir(root)
 		for _, e := range ents {
 			if e.IsDir() && e.Name() != key[:32] {
-				os.RemoveAll(filepath.Join(root, e.Name()))
+				if fi, err := e.Info(); err == nil {
+					olds = append(olds, old{e.Name(), fi.ModTime()})
+				}
+			}
+		}
+		sort.Slice(olds, func(i, j int) bool { return olds[i].mod.After(olds[j].mod) })
+		for i, o := range olds {
+			if i >= 5 && time.Since(o.mod) > 3*time.Hour {
+				os.RemoveAll(filepath.Join(root, o.name))
 			}
 		}
 		cmd := exec.Command(filepath.Join(verifDir, "build.sh"), append([]string{dir}, targets...)...)
@@ -152,6 +167,8 @@ func ensureBuild(needRace bool, c *Ctx) (*Build, error) {
 	if err := b.loadSites(); err != nil {
 		return nil, err
 	}
+	now := time.Now()
+	os.Chtimes(dir, now, now)
 	return b, nil
 }
 
